@@ -487,6 +487,20 @@ def check_sanitize(ctx, scope=('output-root', 'log-root', 'report-root',
             if isinstance(sub, ast.Assign) and len(sub.targets) == 1 and \
                     isinstance(sub.targets[0], ast.Name):
                 assigns.setdefault(sub.targets[0].id, []).append(sub.value)
+        # a parameter with a constant default (`suffix='.log'`) is a fixed
+        # decoration chosen by the code, not a task name
+        fargs = func.node.args
+        pos_args = fargs.posonlyargs + fargs.args
+        for arg, dflt in list(zip(pos_args[len(pos_args) -
+                                           len(fargs.defaults):],
+                                  fargs.defaults)) + [
+                (a, d) for a, d in zip(fargs.kwonlyargs, fargs.kw_defaults)
+                if d is not None]:
+            if isinstance(dflt, ast.Constant) and isinstance(
+                    dflt.value, str) and '/' not in dflt.value and \
+                    not _mentions_task_name(ast.Name(id=arg.arg,
+                                                     ctx=ast.Load())):
+                assigns.setdefault(arg.arg, []).append(dflt)
         for opd in named:
             key = f'{rootkey} / {txt(opd)[:50]}'
             if func.key in READ_SIDE:
